@@ -393,6 +393,12 @@ func checkC15(c *Ctx) {
 		if f == nil {
 			continue
 		}
+		// the key generation may sit in a helper of the package that Obfuscate calls (both tag obfuscators share it)
+		if typ != "XORObfuscator" && len(callsIn(f, shortIs("ScalarBaseMult"))) == 0 {
+			if l, ok := findOneDeep(f, shortIs("ScalarBaseMult")); ok {
+				f = l.in
+			}
+		}
 		reads := callsIn(f, nameIs("crypto/rand.Read"))
 		if len(reads) == 0 {
 			r.Bad("C15.3", typ+".Obfuscate: no crypto/rand.Read", f.Pos(), fnName(f), "the obfuscator draws no fresh randomness: every encoding of a tag is identical and linkable")
@@ -451,6 +457,27 @@ func checkC15(c *Ctx) {
 		// every path from entry AND from the previous ScalarBaseMult (retry) to ScalarBaseMult passes a fill
 		stale1, _ := reach(f, nil, isInstr(sbm), isFill, nil)
 		stale2, _ := reach(f, sbm, isInstr(sbm), isFill, nil)
+		// ... and the representative is used only when ScalarBaseMult said it exists: once the edges on which its
+		// result is true are removed, no successful return is reachable from the call without another attempt
+		okEdges := edgesEstablishing(f, func(cond string, pol bool) bool { return pol && cond == pathOf(sbm) })
+		isOKReturn := func(in ssa.Instruction) bool {
+			ret, ok := in.(*ssa.Return)
+			if !ok || len(ret.Results) == 0 {
+				return false
+			}
+			last := len(ret.Results) - 1
+			if !types.Identical(ret.Results[last].Type(), types.Universe.Lookup("error").Type()) {
+				return true
+			}
+			cst, isC := returnedValue(ret, last, nil).(*ssa.Const)
+			return isC && cst.Value == nil
+		}
+		if unrep, w := reachPS(f, sbm, isOKReturn, isInstr(sbm), okEdges); unrep {
+			r.Bad("C15.3", typ+".Obfuscate: the key search ends only with a key that has a representative", sbm.Pos(), fnName(f),
+				"a successful return is reachable after ScalarBaseMult reported that the key has no Elligator representative: the tag is sent with a stale or zero representative, which the station cannot map back to the client's key - the encoding is not invertible", r.blockPath(f, w)...)
+		} else {
+			r.OK("C15.3", typ+".Obfuscate: the key search ends only with a key that has a representative", sbm.Pos(), "no successful return reachable from ScalarBaseMult == false without another attempt")
+		}
 		r.Check(!stale1 && !stale2, "C15.3", typ+".Obfuscate: ephemeral private key filled from crypto/rand before every ScalarBaseMult", sbm.Pos(), fnName(f), "must-pass rand.Read(clientPrivate[:])",
 			"a path reaches the key derivation without refilling the ephemeral private key from crypto/rand: a fixed or reused ephemeral key makes every tag for a station identical/linkable")
 	}
